@@ -46,6 +46,13 @@ def unary_actions():
     return acts
 
 
+def rank3_actions():
+    acts = [["sumd", d] for d in (0, 1, 2, -5, -4, -3)] + [["prodd", d] for d in (0, 1, 2)]
+    acts += [["permb", list(p)] for p in itertools.permutations(range(3)) if list(p) != [0, 1, 2]]
+    acts += [["transb", [0, 2]], ["transb", [1, 2]], ["unsqueeze1"], ["mT"], ["mul", "batchconst"]]
+    return acts
+
+
 def cases(tier, seed):
     cat = R.catalogue_uniform(N)
     names = list(cat)
@@ -66,6 +73,10 @@ def cases(tier, seed):
         for ba in ((), (2,), (1,), (2, 3)):
             for act in unary_actions():
                 out.append({"kind": "un", "A": a, "ba": list(ba), "act": act})
+    # three batch dimensions of distinct sizes: reductions over / permutations of every batch dimension
+    for a in names:
+        for act in rank3_actions():
+            out.append({"kind": "un", "A": a, "ba": [4, 3, 2], "act": act})
     # depth 2 on concatenations (both tiers): batch-reshaping rewrites of an operator concatenated along a batch or matrix dimension
     cat_parts = ["Dense", "Diag", "Toeplitz", "Kron", "Root", "DensePSD"]
     cat_acts = [["unsqueeze0"], ["unsqueeze1"], ["squeeze0"], ["repeat2"], ["repeat21"], ["expand2"], ["expand23"], ["permute"], ["transpose01"], ["mT"],
@@ -190,6 +201,18 @@ def apply_un(act, x, dense, pd):
         return (lambda: x.sum(0)), (lambda: dense.sum(0) if len(batch) >= 1 else _refuse()), False
     if a == "sum-3":
         return (lambda: x.sum(-3)), (lambda: dense.sum(-3) if len(batch) >= 1 else _refuse()), False
+    if a == "sumd":  # reduction over an arbitrary (positive or negative) batch dimension
+        d = act[1]
+        return (lambda: x.sum(d)), (lambda: dense.sum(d) if 0 <= d < len(batch) or -dense.ndim <= d < -2 else _refuse()), False
+    if a == "prodd":
+        d = act[1]
+        return (lambda: x.prod(d)), (lambda: dense.prod(d) if len(batch) > d >= 0 else _refuse()), True
+    if a == "permb":  # arbitrary permutation of the batch dimensions
+        p = tuple(act[1]) + (len(act[1]), len(act[1]) + 1)
+        return (lambda: x.permute(*p)), (lambda: dense.permute(*p) if len(batch) == len(act[1]) else _refuse()), False
+    if a == "transb":
+        i, j = act[1]
+        return (lambda: x.transpose(i, j)), (lambda: dense.transpose(i, j) if len(batch) > max(i, j) else _refuse()), False
     if a == "prod0":
         return (lambda: x.prod(0)), (lambda: dense.prod(0) if len(batch) >= 1 else _refuse()), True
     if a == "add_jitter":
